@@ -3583,6 +3583,20 @@ TMP_RELEASE_BOUNDARIES = {
 }
 
 
+def _own_reservation(fn, cond, env):
+    """`cond` is a local r with `let r = .. && !self.tmp_in_use`, and the function holds `if r { self.tmp_in_use = true; }`"""
+    if not re.fullmatch(r"\w+", cond):
+        return False
+    b = env.get(cond)
+    if b is None or b.init is None or "!self.tmp_in_use" not in expr_text(b.init).replace(" ", ""):
+        return False
+    for x in walk(fn["body"]):
+        if x.get("k") == "if" and expr_text(x["cond"]).replace(" ", "").strip("()") == cond and any(
+                y.get("k") == "assign" and expr_text(y["l"]).replace(" ", "") == "self.tmp_in_use" and expr_text(y["r"]).strip() == "true" for y in walk(x["then"])):
+            return True
+    return False
+
+
 @rule("T-TMP-RELEASE", floor=15,
       text="`tmp_in_use` says that cctmp holds something alive: an operand (ExprType::Tmp) or the program's Y parked while Y serves as an index.  It "
            "is lowered only by the code that has just consumed that content - inside an arm that matched the operand as `ExprType::Tmp(..)`, or "
@@ -3604,6 +3618,8 @@ def t_tmp_release(facts, res, tier):
                 how = "the operand consumed is the temporary"
             elif "self.saved_y" in conds:
                 how = "the parked Y is restored"
+            elif any(_own_reservation(fn, c0, env) for c0 in conds):
+                how = "releases a reservation this code made itself (raised only when the flag was down)"
             else:
                 for (f0, a0), why in TMP_RELEASE_BOUNDARIES.items():
                     if fn["name"] == f0 and (a0 is None or any(a0 in a for a in arms)):
@@ -4511,3 +4527,68 @@ def t_stmt_tail(facts, res, tier):
         res.fail(key, facts.where(fn, stmts[-1]), "generate_statement no longer applies the pending ++/-- and the restore of Y after the statement it has generated")
     for a, r in early:
         res.fail(key, facts.where(fn, r), "generate_statement: the arm `%s` returns before the tail that applies what the statement left pending: the INX / LDY cctmp of `load(tab[X++])`, `store(buf[i])` is emitted by the next statement, after the join label of the construct around it" % pat_text(a["pat"])[:40])
+
+
+@rule("T-STORE-OPERAND-ACC", floor=1,
+      text="`store(e)` writes the accumulator - the value the program put there - to e.  While generate_statement works out the operand of a Store "
+           "the accumulator is in use: the operand is evaluated between `self.acc_in_use = true` and `self.acc_in_use = false`, lowered before "
+           "the result is opened with `?`.  Evaluated with A free, a computed subscript (`store(buf[i + 1])`) is worked out in A and that is what "
+           "gets stored")
+def t_store_operand_acc(facts, res, tier):
+    fn = facts.fn("generate_statement", genmodel.GEN_QUAL)
+    n = 0
+    for m in walk(fn["body"]):
+        if m.get("k") != "match":
+            continue
+        for a in m["arms"]:
+            if not pat_text(a["pat"]).replace(" ", "").startswith("Statement::Store("):
+                continue
+            n += 1
+            key = "T-STORE-OPERAND-ACC:generate_statement"
+            st = a["body"].get("stmts", [])
+            idx = next((i for i, s in enumerate(st) if any(_self_call(x, ("generate_expr",)) for x in walk(s))), None)
+            is_set = lambda s, v: s.get("k") == "assign" and expr_text(s["l"]).replace(" ", "") == "self.acc_in_use" and expr_text(s["r"]).strip() == v
+            ok = idx is not None and idx > 0 and idx + 1 < len(st) and is_set(st[idx - 1], "true") and is_set(st[idx + 1], "false") and not any(x.get("k") == "try" for x in walk(st[idx]))
+            res.inst(key, True, {"operand_evaluated_with_the_accumulator_in_use": ok})
+            if not ok:
+                res.fail(key, facts.where(fn, st[idx] if idx is not None else a["body"]), "generate_statement evaluates the operand of store() with the accumulator marked free: a subscript or address computed in A replaces the value the statement is meant to store")
+    if n == 0:
+        raise AnchorMissing("generate_statement: no arm for Statement::Store")
+
+
+@rule("T-SUBSCRIPT-TMP-RESERVED", floor=1,
+      text="for a computed subscript generate_expr reserves, before it evaluates the subscript, the slot where `STY cctmp` will be written once the "
+           "subscript is known (the program's Y is parked while Y serves as the index).  From that point cctmp belongs to the parked Y: the "
+           "first evaluation of the subscript runs with `tmp_in_use` raised (when the slot was reserved and the flag was down) and lowers it "
+           "again afterwards.  A subscript that parks an operand of its own in cctmp (`a[(i & 3) + (j & 1)]`) otherwise overwrites the Y that the "
+           "final `LDY cctmp` restores")
+def t_subscript_tmp_reserved(facts, res, tier):
+    fn = facts.fn("generate_expr", genmodel.GEN_QUAL)
+    n = 0
+    for b in walk(fn["body"]):
+        if b.get("k") != "block":
+            continue
+        st = b.get("stmts", [])
+        idx = next((i for i, s in enumerate(st) if s.get("k") == "let" and s.get("init") is not None and _self_call(_unwrap_try(s["init"]), ("generate_expr",))
+                    and _unwrap_try(s["init"])["args"] and expr_text(_unwrap_try(s["init"])["args"][0]).replace(" ", "") == "sub"
+                    and any(x.get("k") == "assign" and expr_text(x["l"]).replace(" ", "") == "self.sub_output" for s2 in st for x in walk(s2))), None)
+        if idx is None:
+            continue
+        n += 1
+        key = "T-SUBSCRIPT-TMP-RESERVED:generate_expr"
+        lets = {s["pat"]["name"]: expr_text(s["init"]).replace(" ", "") for s in st[:idx] if s.get("k") == "let" and s.get("pat", {}).get("k") == "ident" and s.get("init") is not None}
+        raised = None
+        for s in st[:idx]:
+            if s.get("k") == "if":
+                c = expr_text(s["cond"]).replace(" ", "").strip("()")
+                if c in lets and "dummy.is_some()" in lets[c] and "!self.tmp_in_use" in lets[c] and any(
+                        y.get("k") == "assign" and expr_text(y["l"]).replace(" ", "") == "self.tmp_in_use" and expr_text(y["r"]).strip() == "true" for y in walk(s["then"])):
+                    raised = c
+        lowered = raised is not None and any(s.get("k") == "if" and expr_text(s["cond"]).replace(" ", "").strip("()") == raised and any(
+            y.get("k") == "assign" and expr_text(y["l"]).replace(" ", "") == "self.tmp_in_use" and expr_text(y["r"]).strip() == "false" for y in walk(s["then"])) for s in st[idx + 1:])
+        no_try = not any(x.get("k") == "try" for x in walk(st[idx]))
+        res.inst(key, True, {"reserved_under": raised, "released_after": lowered, "no_exit_in_between": no_try})
+        if not (raised and lowered and no_try):
+            res.fail(key, facts.where(fn, st[idx]), "generate_expr evaluates a computed subscript without keeping cctmp for the program's Y (the slot of the `STY cctmp` is already reserved): a subscript that uses cctmp itself overwrites the parked Y")
+    if n == 0:
+        raise AnchorMissing("generate_expr: the first evaluation of a computed subscript was not found")
